@@ -31,6 +31,8 @@ pub enum Ev {
 }
 
 struct AppInner {
+    /// bulk configurations: handlers never wait on their gate
+    auto_open: bool,
     epoch: u64,
     tx: Mutex<Sender<Ev>>,
     gates: Vec<Vec<tokio::sync::Notify>>,
@@ -56,7 +58,9 @@ async fn handler(
         return pavex::Response::ok().set_typed_body("probe".to_string());
     };
     let _ = app.0.tx.lock().unwrap().send(Ev::Entered(app.0.epoch, i, k));
-    app.0.gates[i as usize][k as usize].notified().await;
+    if !app.0.auto_open {
+        app.0.gates[i as usize][k as usize].notified().await;
+    }
     pavex::Response::ok().set_typed_body(format!("done-c{i}-r{k}"))
 }
 
@@ -118,6 +122,12 @@ pub struct Outcome {
     pub max_sched_gap_ms: f64,
     pub parked_fallbacks: usize,
     pub trace: Vec<String>,
+    /// after `shutdown` had been called, the acceptor — released from every checkpoint — did not reach the next
+    /// checkpoint the shadow model predicts within the watchdog (ms waited); 0 = did not happen
+    #[serde(default)]
+    pub acceptor_unresponsive_after_call_ms: f64,
+    #[serde(default)]
+    pub acceptor_unresponsive_waiting_for: String,
 }
 
 impl Outcome {
@@ -151,6 +161,7 @@ struct ClientRt {
     /// per request: (sent_before_call, class, entered, gate_opened, answered)
     reqs: Vec<ReqFact>,
     amsg_seen: bool,
+    dropped: bool,
     dispatched: bool,
     started: bool,
 }
@@ -257,6 +268,9 @@ struct Run<'h> {
     trace: Vec<String>,
     events: usize,
     pending: std::collections::VecDeque<Ev>,
+    unresponsive_ms: f64,
+    unresponsive_since_call: bool,
+    unresponsive_for: String,
 }
 
 impl Harness {
@@ -302,6 +316,7 @@ impl Harness {
         }
         let stale: Vec<u32> = pavex_threads().into_iter().map(|(t, _)| t).collect();
         let app = App(Arc::new(AppInner {
+            auto_open: cfg.bulk,
             epoch,
             tx: Mutex::new(self.tx.clone()),
             gates: (0..cfg.clients)
@@ -357,6 +372,9 @@ impl Harness {
             trace: vec![],
             events: 0,
             pending: Default::default(),
+            unresponsive_ms: 0.0,
+            unresponsive_since_call: false,
+            unresponsive_for: String::new(),
         };
         run.go(schedule, &stale)
     }
@@ -427,8 +445,18 @@ impl Run<'_> {
                     }
                     Point::ADropped(peer) => {
                         rel.release();
-                        self.diverge(format!("acceptor dropped connection {peer}"));
-                        None
+                        match self.client_of(&peer) {
+                            Some(i) => {
+                                if let Some(c) = self.clients[i as usize].as_mut() {
+                                    c.dropped = true;
+                                }
+                                Some(Expect::ADropped(i))
+                            }
+                            None => {
+                                self.diverge(format!("acceptor dropped unknown connection {peer}"));
+                                None
+                            }
+                        }
                     }
                     Point::AShutdownSent => {
                         self.a_rel = Some(rel);
@@ -471,6 +499,9 @@ impl Run<'_> {
                     && let Some(r) = c.reqs.get_mut(k as usize)
                 {
                     r.entered = true;
+                    if self.cfg.bulk {
+                        r.gate_opened = true;
+                    }
                 }
                 Some(Expect::Entered(i))
             }
@@ -531,7 +562,7 @@ impl Run<'_> {
                 None if Instant::now() < deadline => {
                     let dead = want.iter().find_map(|e| {
                         let tid = match e {
-                            Expect::AMsgConn(_) | Expect::AMsgShutdown | Expect::ADispatched(..)
+                            Expect::AMsgConn(_) | Expect::AMsgShutdown | Expect::ADispatched(..) | Expect::ADropped(_)
                             | Expect::ALoop | Expect::AShutdownSent => self.a_tid,
                             Expect::WLoop(w) | Expect::WMsgConn(w, _) | Expect::WMsgShutdown(w)
                             | Expect::WDrained(w, _) => self.w_tid.get(*w as usize).copied().flatten(),
@@ -546,6 +577,13 @@ impl Run<'_> {
                     continue;
                 }
                 None => {
+                    let acceptor_side = want.iter().any(|e| matches!(e, Expect::AMsgShutdown | Expect::AShutdownSent | Expect::ALoop | Expect::ADropped(_) | Expect::ADispatched(..)));
+                    if acceptor_side && self.a_rel.is_none() && self.unresponsive_ms == 0.0 {
+                        // the acceptor is not held by the harness, yet it never arrived
+                        self.unresponsive_since_call = self.called_at.is_some();
+                        self.unresponsive_ms = WATCHDOG.as_millis() as f64;
+                        self.unresponsive_for = format!("{want:?}");
+                    }
                     self.diverge(format!("stall: still waiting for {want:?}"));
                     return;
                 }
@@ -585,6 +623,7 @@ impl Run<'_> {
                     partial: false,
                     reqs: vec![],
                     amsg_seen: false,
+                    dropped: false,
                     dispatched: false,
                     started: false,
                 });
@@ -631,6 +670,8 @@ impl Run<'_> {
                     "keepalive_unparsed"
                 } else if c.started {
                     "started_unparsed"
+                } else if c.dropped {
+                    "dropped"
                 } else if c.dispatched {
                     "queued"
                 } else if c.amsg_seen {
@@ -781,6 +822,7 @@ impl Run<'_> {
             KeepAliveUnparsed => "keepalive_unparsed",
             MidHandler => "mid_handler",
             LateConnect => "late_connect",
+            Dropped => "dropped",
         }
     }
 
@@ -1062,6 +1104,8 @@ impl Run<'_> {
             max_sched_gap_ms: self.h.sched_gap_us.load(std::sync::atomic::Ordering::Relaxed) as f64 / 1000.0,
             parked_fallbacks: self.pub_parked_fallbacks,
             trace: self.trace,
+            acceptor_unresponsive_after_call_ms: if self.unresponsive_since_call { self.unresponsive_ms } else { 0.0 },
+            acceptor_unresponsive_waiting_for: self.unresponsive_for,
         }
     }
 }
